@@ -332,5 +332,6 @@ def main(rep, tier):
     return rep.finish(
         "Necessary structural conditions of exact delivery: where the delivering state is entered and left, that bytes move only in that "
         "state, that one quantity drives all counters of the delivering arm, that end-of-stream headers are held back without consuming, "
-        "and that one advancing cursor serves all records of a call.",
-        not_decided="byte-exactness under all fill / consume / compress schedules (four-cursor buffer geometry: relational arithmetic, declined in DESIGN.md §8)")
+        "that one advancing cursor serves all records of a call, that the buffer-moving functions keep every live region where the cursors say (R2.7), "
+        "and that delivered bytes are also reported through the async read interfaces (R2.8).",
+        not_decided="byte-exactness of the delivered stream as a whole under all fill / consume / compress schedules (the per-function buffer geometry is decided: R2.7 = R3.10)")
